@@ -31,6 +31,64 @@ Theorem C17_refinement_startkey_refuted : exists neighbour L reg o o',
 Proof. exact refine_startkey_refuted_proof. Qed.
 Print Assumptions C17_refinement_startkey_refuted.
 
+(* ---- filter_results (cluster_prediction.py): the best hit of a group of overlapping hits of competing profiles is
+   searched starting from `list(group)[0]` of a SET of identity-hashed HSP objects.  A memory layout is a rank
+   assignment rho (C13.Model: f_rank).  With pairwise distinct bitscores the kept hits are the same for all layouts
+   (and filter_results does not raise) ... *)
+Theorem C17_filter_results_layout_perm : forall eqg results mine rho rho',
+  C13.Model.fwf mine = true -> C13.Model.distinct_scores mine = true ->
+  filter_gene_o rho eqg results mine = filter_gene_o rho' eqg results mine /\
+  exists r m, filter_gene_o rho eqg results mine = Ok (r, m).
+Proof. exact filter_gene_layout_proof. Qed.
+Print Assumptions C17_filter_results_layout_perm.
+
+(* ... with a tie on the bitscore they follow the layout (finding filter_results_score_tie_set_order) *)
+Theorem C17_filter_results_tie_refuted : exists eqg results mine rho rho',
+  C13.Model.fwf mine = true /\ NoDup (map C13.Model.f_id mine) /\
+  filter_gene_o rho eqg results mine <> filter_gene_o rho' eqg results mine.
+Proof. exact filter_gene_tie_refuted_proof. Qed.
+Print Assumptions C17_filter_results_tie_refuted.
+
+(* ---- CDSResults.annotate: the CORE gene functions of a gene are added in the iteration order of the Set[str] of
+   definition domains: two enumerations of the same sets give different gene_functions lists (finding
+   annotate_definition_domains_set_order); iterating `sorted(matching_domains)` (proposed repair) does not ... *)
+Theorem C17_annotate_order_refuted : exists defs defs',
+  Forall2 (fun d d' => fst d = fst d' /\ forall x, In x (snd d) <-> In x (snd d')) defs defs' /\
+  annotate_core defs <> annotate_core defs' /\ annotate_core_sorted defs = annotate_core_sorted defs'.
+Proof. exact annotate_refuted_proof. Qed.
+Print Assumptions C17_annotate_order_refuted.
+
+(* ... for any input ... *)
+Theorem C17_annotate_sorted_repair_perm : forall defs defs',
+  Forall2 (fun d d' => fst d = fst d' /\ forall x, In x (snd d) <-> In x (snd d')) defs defs' ->
+  annotate_core_sorted defs = annotate_core_sorted defs'.
+Proof. exact annotate_sorted_proof. Qed.
+Print Assumptions C17_annotate_sorted_repair_perm.
+
+(* ... and the code as it is gives one result when no cluster type has two definition domains on the gene *)
+Theorem C17_annotate_single_domain_perm : forall defs defs',
+  Forall2 (fun d d' => fst d = fst d' /\ forall x, In x (snd d) <-> In x (snd d')) defs defs' ->
+  Forall (fun d => forall x y, In x (snd d) -> In y (snd d) -> x = y) defs ->
+  annotate_core defs = annotate_core defs'.
+Proof. exact annotate_single_proof. Qed.
+Print Assumptions C17_annotate_single_domain_perm.
+
+(* ---- terpene filter_incomplete: gather_by_query sets sorted by query_start ONLY, then remove_incomplete.  Same
+   result for every enumeration unless two different hits of one gene start at the same position ... *)
+Theorem C17_terpene_filter_perm : forall t o o', Permutation o o' ->
+  (forall g a b, In (g, a) o -> In (g, b) o -> C13.Model.st a = C13.Model.st b -> a = b) ->
+  terpene_filter_o t o = terpene_filter_o t o'.
+Proof. exact terpene_filter_perm_proof. Qed.
+Print Assumptions C17_terpene_filter_perm.
+
+(* ... in which case the result follows the enumeration (finding terpene_start_tie_set_order); the total key of
+   refine_hmmscan_results gives one result on the same input *)
+Theorem C17_terpene_filter_startkey_refuted : exists t o o',
+  Permutation o o' /\ NoDup o /\ terpene_filter_o t o <> terpene_filter_o t o' /\
+  refine_o true t o = refine_o true t o'.
+Proof. exact terpene_filter_refuted_proof. Qed.
+Print Assumptions C17_terpene_filter_startkey_refuted.
+
 (* ---- find_protoclusters: `sorted(record.get_cds_by_name(cds) for cds in cds_names)`.
    The sorted list of FEATURES does depend on the set order when two anchoring genes have equal
    (start, length) - same coordinates on the two strands ... *)
@@ -124,6 +182,52 @@ Theorem C17_formation_singles_perm : forall u u', Forall simple u -> Permutation
 Proof. exact singles_visit_perm_proof. Qed.
 Print Assumptions C17_formation_singles_perm.
 
+(* ---- the WHOLE formation (create_candidates_from_protoclusters) with every iteration over a Python set made explicit:
+   `en k s` = the order in which the set s is enumerated at site k (Model.v, module FO, sites 1..9).  At the
+   ascending-id enumeration it is C05.Model.create_candidates, the model compared with the code on every run - for
+   every input *)
+Theorem C17_formation_model_is_C05 : forall protos w,
+  FO.create_candidates_o FO.en_asc protos w = C05.Model.create_candidates protos w.
+Proof. exact formation_o_iter_proof. Qed.
+Print Assumptions C17_formation_model_is_C05.
+
+(* the candidates (kinds, members, member order, locations, list order, and the error outcome) are the same for all
+   enumerations of the sets at sites 1, 2, 3, 4, 6 (build_candidates' existing/extras sets, the singles loop, every
+   _ordered(set)) and, on LINEAR records, also at site 5 (the scan of _find_hybrids over `sorted(set, key=core start)`:
+   equal core starts may come in any order) and site 8 (never reached) - records without origin-crossing protoclusters,
+   unique ids, no two protoclusters sharing coordinates AND product AND core start/end.  At the two PLAIN location sorts
+   of a set (sites 7, 9: `sorted(set)` without the product pre-sort) the enumerations must be tie neutral; on circular
+   records sites 5 and 8 must follow ascending id: partial *)
+Theorem C17_formation_perm_partial : forall P w en en',
+  Forall simple P -> NoDup (map C05.Model.pid P) ->
+  (forall a b, In a P -> In b P -> pkey a = pkey b -> prekey a = prekey b -> a = b) ->
+  enumerator en -> enumerator en' -> tie_neutral P en -> tie_neutral P en' ->
+  linear_or_neutral P w en -> linear_or_neutral P w en' ->
+  FO.create_candidates_o en P w = FO.create_candidates_o en' P w.
+Proof. exact formation_perm_partial_proof. Qed.
+Print Assumptions C17_formation_perm_partial.
+
+(* linear records, proper single-part locations and cores, no two protoclusters with the same coordinates (equal core
+   starts, equal products, nested and overlapping areas allowed): EVERY enumeration of EVERY set the formation iterates
+   gives the same candidates - no hypothesis on the enumerations *)
+Theorem C17_formation_perm_linear : forall P en en',
+  Forall proper2 P -> NoDup (map C05.Model.pid P) ->
+  (forall a b, In a P -> In b P -> pkey a = pkey b -> a = b) ->
+  enumerator en -> enumerator en' ->
+  FO.create_candidates_o en P None = FO.create_candidates_o en' P None.
+Proof. exact formation_perm_linear_proof. Qed.
+Print Assumptions C17_formation_perm_linear.
+
+(* the scan of _find_hybrids on a linear record: for any arrangement of the unassigned protoclusters that is sorted by
+   core start, the window scan with its early break returns exactly those whose core lies inside the joint core *)
+Theorem C17_hybrid_scan_is_containment : forall h l, wsorted C05.Model.core_start_lt l -> Forall proper2 l ->
+  C05.Model.contained_until [h] (lend [h])
+    (skipn (Z.to_nat (Z.max 0 (Z.of_nat (C05.Model.bisect_left (fun x => x <? lstart [h])
+                                           (map (fun c => C05.Model.fstart (C05.Model.pcore c)) l)) - 1))) l)
+  = filter (in_core h) l.
+Proof. exact scan_is_filter. Qed.
+Print Assumptions C17_hybrid_scan_is_containment.
+
 (* ---- Region.get_unique_protoclusters, origin-crossing branch (key includes the product): same
    list for every set order unless two protoclusters share (start, length, product) ... *)
 Theorem C17_unique_crossing_perm : forall N o o', Permutation o o' ->
@@ -131,6 +235,15 @@ Theorem C17_unique_crossing_perm : forall N o o', Permutation o o' ->
   unique_crossing N o = unique_crossing N o'.
 Proof. exact unique_crossing_perm_proof. Qed.
 Print Assumptions C17_unique_crossing_perm.
+
+(* ... the guard is needed: same shifted start, length AND product, different cores - the two set orders give two
+   different lists (finding unique_crossing_same_product_set_order; the other branch separates them by the core) *)
+Theorem C17_unique_crossing_same_product_refuted : exists N o o',
+  Permutation o o' /\ NoDup (map uid o) /\
+  (forall a b, In a o -> In b o -> (ucs a, uce a) = (ucs b, uce b) -> a = b) /\
+  map uid (unique_crossing N o) <> map uid (unique_crossing N o').
+Proof. exact unique_crossing_refuted_proof. Qed.
+Print Assumptions C17_unique_crossing_same_product_refuted.
 
 (* ... and always in the documented order (shifted start, decreasing size, product) *)
 Theorem C17_unique_crossing_documented_order : forall N o, doc_sorted true N (unique_crossing N o) = true.
@@ -187,22 +300,24 @@ Theorem C17_sorted_notes_perm : forall o o', Permutation o o' -> sorted_list o =
 Proof. exact sorted_list_perm_proof. Qed.
 Print Assumptions C17_sorted_notes_perm.
 
-(* ---- composition over the modelled stages, under the union of the guards: hits, anchoring
-   genes, the members of a candidate, the protoclusters of a region, rule names and notes may each
-   be enumerated in any order *)
-Theorem C17_pipeline_partial : forall neighbour table N c nb crossing RN
-    (hits hits' : list (Z * C13.Model.hit)) (genes genes' : list agene) (group group' : list C05.Model.proto)
+(* ---- composition over the modelled stages, under the union of the guards: hits, anchoring genes, every set of the
+   candidate formation (whole create_candidates_from_protoclusters, hypotheses of C17_formation_perm_partial), the
+   members of any group, the protoclusters of a region, rule names and notes may each be enumerated in any order *)
+Theorem C17_pipeline_partial : forall neighbour table N c nb crossing RN w
+    (hits hits' : list (Z * C13.Model.hit)) (genes genes' : list agene) (P : list C05.Model.proto) (en en' : FO.enum)
     (protos protos' : list uproto) (names names' notes notes' : list (list Z)),
-  Permutation hits hits' -> Permutation genes genes' -> Permutation group group' ->
+  Permutation hits hits' -> Permutation genes genes' ->
+  enumerator en -> enumerator en' ->
   Permutation protos protos' -> (forall x, In x names <-> In x names') -> Permutation notes notes' ->
-  Forall simple group ->
-  (forall a b, In a group -> In b group -> pkey a = pkey b -> prekey a = prekey b -> a = b) ->
+  Forall simple P -> NoDup (map C05.Model.pid P) -> tie_guard P ->
+  tie_neutral P en -> tie_neutral P en' -> linear_or_neutral P w en -> linear_or_neutral P w en' ->
   (crossing = true -> forall a b, In a protos -> In b protos -> red_key RN a = red_key RN b -> a = b) ->
   (crossing = false -> Forall wf_u protos /\
                        forall a b, In a protos -> In b protos -> lin_key a = lin_key b -> upre_key a = upre_key b -> a = b) ->
   refine_o neighbour table hits = refine_o neighbour table hits' /\
   find_protoclusters_o N c nb genes = find_protoclusters_o N c nb genes' /\
-  C05.Model.ordered_list group = C05.Model.ordered_list group' /\
+  FO.create_candidates_o en P w = FO.create_candidates_o en' P w /\
+  (forall g g', incl g P -> Permutation g g' -> C05.Model.ordered_list g = C05.Model.ordered_list g') /\
   unique_protoclusters crossing RN protos = unique_protoclusters crossing RN protos' /\
   sorted_set names = sorted_set names' /\
   sorted_list notes = sorted_list notes'.
@@ -256,3 +371,65 @@ Example C17_ex_strings :
   sorted_set [[114; 97]; [114; 50]; [114; 49; 48]; [114; 50]] = [[114; 49; 48]; [114; 50]; [114; 97]] /\
   sorted_list [[98]; [97]; [98]; []] = [[]; [97]; [98]; [98]].
 Proof. split; vm_compute; reflexivity. Qed.
+
+(* whole formation: identical coordinates with different products (tie guard holds, coordinates NOT distinct): descending
+   id at sites 1, 2, 3, 4, 6 gives the candidates of ascending id; hypotheses of C17_formation_perm_partial hold *)
+Example C17_ex_formation_partial :
+  enumerator en_mixed /\ enumerator FO.en_asc /\
+  (tie_neutral [w_pa; w_pb; w_pc] en_mixed /\ linear_or_neutral [w_pa; w_pb; w_pc] None en_mixed) /\
+  (tie_neutral [w_pa; w_pb; w_pc] FO.en_asc /\ linear_or_neutral [w_pa; w_pb; w_pc] None FO.en_asc) /\
+  NoDup (map C05.Model.pid [w_pa; w_pb; w_pc]) /\
+  view (FO.create_candidates_o en_mixed [w_pa; w_pb; w_pc] None)
+    = Ok [(C05.Model.K_NEIGHBOURING, [0; 1; 2]); (C05.Model.K_SINGLE, [0]); (C05.Model.K_SINGLE, [1]); (C05.Model.K_SINGLE, [2])].
+Proof.
+  split; [exact en_mixed_enumerator|]. split; [exact en_asc_enumerator|].
+  split; [apply en_mixed_neutral|]. split; [apply en_asc_neutral|].
+  split; [cbn; repeat constructor; cbn; intuition discriminate|vm_compute; reflexivity].
+Qed.
+(* linear record, distinct coordinates, EQUAL core starts (w_l1, w_l2 share the defining gene 7: hybrid pair; w_l4's
+   core lies inside their joint core and starts where w_l1's does): descending id everywhere is an enumerator and gives
+   the same candidates *)
+Definition w_l1 := C05.Model.mkProto 0 [mkPart 0 300 1] [mkPart 100 200 1] 0 [7].
+Definition w_l2 := C05.Model.mkProto 1 [mkPart 50 400 1] [mkPart 150 250 1] 1 [7].
+Definition w_l3 := C05.Model.mkProto 2 [mkPart 350 600 1] [mkPart 450 500 1] 2 [].
+Definition w_l4 := C05.Model.mkProto 3 [mkPart 90 260 1] [mkPart 100 180 1] 3 [].
+Definition w_l5 := C05.Model.mkProto 4 [mkPart 80 270 1] [mkPart 100 190 1] 4 [].
+Example C17_ex_formation_linear_ties :
+  Forall proper2 [w_l1; w_l2; w_l3; w_l4; w_l5] /\ NoDup (map C05.Model.pid [w_l1; w_l2; w_l3; w_l4; w_l5]) /\
+  (forall a b, In a [w_l1; w_l2; w_l3; w_l4; w_l5] -> In b [w_l1; w_l2; w_l3; w_l4; w_l5] -> pkey a = pkey b -> a = b) /\
+  view (FO.create_candidates_o FO.en_desc [w_l1; w_l2; w_l3; w_l4; w_l5] None)
+    = view (FO.create_candidates_o FO.en_asc [w_l1; w_l2; w_l3; w_l4; w_l5] None) /\
+  view (FO.create_candidates_o FO.en_desc [w_l1; w_l2; w_l3; w_l4; w_l5] None)
+    = Ok [(C05.Model.K_NEIGHBOURING, [0; 1; 4; 3; 2]); (C05.Model.K_HYBRID, [0; 1; 4; 3]); (C05.Model.K_SINGLE, [2])].
+Proof.
+  split; [repeat constructor; try (eexists; (split; [reflexivity|cbn; lia])); eexists; (split; [reflexivity|cbn; lia])|].
+  split; [cbn; repeat constructor; cbn; intuition discriminate|].
+  split; [|split; vm_compute; reflexivity].
+  intros a b Ia Ib E. cbn in Ia, Ib.
+  repeat (destruct Ia as [<-|Ia]); try contradiction; repeat (destruct Ib as [<-|Ib]); try contradiction; try reflexivity; vm_compute in E; discriminate.
+Qed.
+Example C17_ex_formation_linear :
+  Forall proper [w_l1; w_l2; w_l3] /\ NoDup (map C05.Model.pid [w_l1; w_l2; w_l3]) /\ enumerator FO.en_desc /\
+  view (FO.create_candidates_o FO.en_desc [w_l1; w_l2; w_l3] None)
+    = Ok [(C05.Model.K_NEIGHBOURING, [0; 1; 2]); (C05.Model.K_HYBRID, [0; 1]); (C05.Model.K_SINGLE, [2])].
+Proof.
+  split; [repeat constructor; eexists; (split; [reflexivity|cbn; lia])|].
+  split; [cbn; repeat constructor; cbn; intuition discriminate|].
+  split; [exact en_desc_enumerator|vm_compute; reflexivity].
+Qed.
+
+(* filter_results: two overlapping hits of competing profiles with different scores - guard holds, hit 1 (score 120) kept *)
+Example C17_ex_filter_results :
+  C13.Model.fwf [w_f1; C13.Model.mkFH 1 1 10 200 120 0] = true /\
+  C13.Model.distinct_scores [w_f1; C13.Model.mkFH 1 1 10 200 120 0] = true /\
+  filter_gene_o (fun i => 1 - i) [0; 1] [w_f1; C13.Model.mkFH 1 1 10 200 120 0] [w_f1; C13.Model.mkFH 1 1 10 200 120 0] = Ok ([1], [1]).
+Proof. repeat split; vm_compute; reflexivity. Qed.
+(* annotate: rule "r" with one domain, rule "s" with none *)
+Example C17_ex_annotate :
+  annotate_core [([114], [[97]; [97]]); ([115], [])] = [([97], [114])].
+Proof. vm_compute. reflexivity. Qed.
+(* terpene: different starts, guard holds, both hits complete *)
+Example C17_ex_terpene :
+  terpene_filter_o [(1, 30, 0); (1, 50, 0)] [(0, C13.Model.mkHit 1 9 60 1 20); (0, w_t1)]
+  = Ok [(0, [w_t1; C13.Model.mkHit 1 9 60 1 20])].
+Proof. vm_compute. reflexivity. Qed.
